@@ -48,7 +48,7 @@ Qed.
 
 Theorem spec_member_field_types_holds : forall e fl, spec_member_field_types e (expand_with e fl).
 Proof.
-  intros e fl. split; [|split].
+  intros e fl. split; [|split; [|split]].
   - exists (event_type_msg e). unfold has_msg. split; [apply in_expand_head; cbn; auto 10|].
     cbn [event_type_msg m_name m_nested]. unfold event_type_name. rewrite cn_event_type. split; [reflexivity|].
     apply (Forall2_map_r _ (fun ev => (ev_name ev, map of_ufield (ev_fields ev)))).
@@ -72,6 +72,11 @@ Proof.
       assert (E : summary_topic_name e s = sp_summary_name e s).
       { unfold summary_topic_name, sp_summary_name, camel_name, sp_camel. destruct (s_name s); reflexivity. }
       rewrite E. split; [reflexivity|]. split; [apply Forall2_as_declared|]. split; reflexivity.
+  - intros s Hs.
+    assert (Hin : In (schema_component s) (expand_with e fl)).
+    { unfold expand_with. do 5 (apply in_or_app; right). apply in_map. exact Hs. }
+    destruct s as [n fs|n fs|n os]; [| |exact I]; cbn [schema_component] in Hin;
+      (eexists; split; [exact Hin|]; cbn [m_name m_oneof m_fields]; repeat split; apply Forall2_as_declared).
 Qed.
 
 Theorem member_field_types_as_declared : forall e cs, compile e = Ok cs -> spec_member_field_types e cs.
